@@ -51,7 +51,7 @@ pub fn canon(s: &str) -> String {
     let (s, _) = split_oracle(s);
     let first = s.split(' ').next().unwrap_or("");
     match first {
-        "panic" | "abort" | "hang" | "diverge" => first.to_string(),
+        "panic" | "abort" | "hang" | "diverge" | "normal" => first.to_string(),
         _ => s.to_string(),
     }
 }
@@ -85,6 +85,10 @@ fn strip_lineno(s: &str) -> String {
 
 fn nontrivial(resp: &str) -> bool {
     let c = class(resp);
+    if c == "normal" {
+        // `normal i<items> e<errors> c<calls>`: something was actually parsed or rejected
+        return resp.split(' ').skip(1).take(2).any(|t| t.len() > 1 && &t[1..] != "0");
+    }
     c == "ok" || c == "digest" || (c.starts_with("err ") && c != "err UnexpectedEof")
 }
 
@@ -129,9 +133,11 @@ fn judge(case: &str, mode: &str, model: &str, imp: &str) -> Option<Failure> {
     let ic = class(imp);
     let crash = matches!(ic.as_str(), "panic" | "abort" | "hang");
     let signature = if crash {
-        format!("crash:{op}:{}", strip_lineno(split_oracle(imp).0))
+        let entry = case.split(' ').nth(1).unwrap_or("");
+        format!("crash:{op}:{entry}:{}", strip_lineno(split_oracle(imp).0))
     } else {
-        format!("corr:{op}:{}/{}", class(model), ic)
+        let two: Vec<&str> = split_oracle(imp).0.split(' ').take(2).collect();
+        format!("corr:{op}:{}/{}", class(model), if ic.starts_with("err ") || ic == "ok" { ic.clone() } else { two.join(" ") })
     };
     Some(Failure {
         kind: if crash { "crash" } else { "correspondence" },
